@@ -673,6 +673,28 @@ def case_uniform(fam, rep):
                     "uniform-grid region assembles another matrix than the general region", unit="uniform:matrix" + (":axisymmetric" if axi else ""), config=(fam, "matrix", n, axi))
         if ru.dV.shape[-1] != 1:
             run.note("uniform=True region stores %s differential volumes" % (ru.dV.shape,))
+        # identical cells that are NOT axis-aligned (a rotated / sheared grid: the Jacobian of the one cell the uniform region looks at
+        # is a full matrix); axisymmetric: sheared along the axis only, the radius (second coordinate) is kept
+        if axi:
+            Am = np.array([[1.0, float(rng.uniform(0.2, 0.6)) * (1 if rng.integers(0, 2) else -1)], [0.0, 1.0]])  # x (axial) += s * y; y (radius) kept
+        else:
+            Am = gen.random_affine(rng, F["dim"])[0]
+        mesh2 = mesh.copy(points=mesh.points @ Am.T)
+        ru2, rg2 = gen.make_region(fam, mesh2, uniform=True), gen.make_region(fam, mesh2)
+        fu2, fg2 = fem.FieldContainer([Fld(ru2, dim=F["dim"])]), fem.FieldContainer([Fld(rg2, dim=F["dim"])])
+        vals2 = gen.random_displacement(rng, mesh2, grad=0.2)
+        fu2[0].values[:] = vals2
+        fg2[0].values[:] = vals2
+        su2, sg2 = fem.SolidBody(copy.deepcopy(um), fu2), fem.SolidBody(copy.deepcopy(um), fg2)
+        for what, a, b in (("vector", su2.assemble.vector(fu2).toarray(), sg2.assemble.vector(fg2).toarray()),
+                           ("matrix", su2.assemble.matrix(fu2).toarray(), sg2.assemble.matrix(fg2).toarray())):
+            run.compare("reduced.uniform", "family=%s%s grid=not-axis-aligned clause=%s" % (fam, "[axisymmetric]" if axi else "", what), maxabs(a - b) / maxabs(b), 1e-11,
+                        "uniform-grid region on a rotated / sheared grid of identical cells assembles another %s than the general region" % what,
+                        unit="uniform:not-axis-aligned:" + what, config=(fam, "affine-grid", what, n, axi))
+        run.compare("reduced.uniform", "family=%s%s grid=not-axis-aligned clause=gradients" % (fam, "[axisymmetric]" if axi else ""),
+                    maxabs(np.broadcast_to(ru2.dhdX, rg2.dhdX.shape) - rg2.dhdX) / maxabs(rg2.dhdX), 1e-11,
+                    "uniform-grid region on a rotated / sheared grid: shape-function gradients differ from the general region's", unit="uniform:not-axis-aligned:dhdX",
+                    config=(fam, "affine-grid", "dhdX", n, axi))
         # cell-constant integrands: the integrated values keep a trailing axis of size one and are expanded at assembly
         le = fem.LinearElastic(E=float(rng.uniform(1, 3)), nu=float(rng.uniform(0.1, 0.4)))
         lu, lg = fem.SolidBody(le, fu), fem.SolidBody(copy.deepcopy(le), fg)
@@ -734,7 +756,7 @@ SPEC = {
                        "axisymmetric:volume:triangle6", "axisymmetric:volume:triangleMINI", "axisymmetric:homogeneous:quad8", "axisymmetric:homogeneous:triangle6", "axisymmetric:homogeneous:triangleMINI",
                        "threefield:own-residual:3d", "threefield:own-residual:planestrain", "threefield:own-residual:axisymmetric", "threefield:own-stiffness:3d", "threefield:own-stiffness:planestrain",
                        "threefield:own-stiffness:axisymmetric",
-                       "uniform:vector", "uniform:matrix", "uniform:vector:axisymmetric", "uniform:matrix:axisymmetric", "uniform:constant:linear-elastic-matrix", "uniform:constant:mass", "uniform:constant:body-force"],
+                       "uniform:vector", "uniform:matrix", "uniform:not-axis-aligned:vector", "uniform:not-axis-aligned:matrix", "uniform:not-axis-aligned:dhdX", "uniform:vector:axisymmetric", "uniform:matrix:axisymmetric", "uniform:constant:linear-elastic-matrix", "uniform:constant:mass", "uniform:constant:body-force"],
     "rule": ("quad4/8/9 ~ hex8/20/27 pairs on undistorted / in-plane distorted / affine meshes with smooth random in-plane states and 4 "
              "materials; axisymmetric forces vs central differences of the oracle-side revolved strain energy and vs the oracle's own virtual work on 6 families (bodies off the axis, and solid bodies touching the axis with meshes graded towards it in three length units) and vs 360-degree "
              "revolved 3D models with 8/16/32 sectors; axisymmetric stiffness vs central differences of the oracle's own virtual-work force, revolved volume vs Pappus on the vertex coordinates and "
